@@ -436,5 +436,7 @@ def subspace_minimization(
             else 1.0
         ),
     )
-    # Eq (5.2) -> update free variables only
-    return xc + alpha_star * Z @ dHat
+    # Eq (5.2) -> update free variables only. The variable limiting alpha_star lands on its
+    # bound up to rounding: project, otherwise a point one ulp outside the box gives a
+    # search direction whose maximum feasible step is zero.
+    return np.clip(xc + alpha_star * Z @ dHat, lb, ub)
